@@ -19,6 +19,10 @@ N2  `x = e` immediately followed by `return x` becomes `return e` (x a local tha
 N3  statement-level `logging.debug(...)` / `logging.info(...)` calls whose arguments are side-effect free are dropped (they can influence neither a
     font nor the build graph). Warnings and errors are kept: R13b asks for one.
 N4  a two-armed `if not c: A else: B` is written `if c: B else: A`.
+N5  inside a function `x: T = e` is `x = e`.
+N6  a local that the reference tree does not have, bound once by `t = e` and read once by the directly following simple
+    statement, with nothing but names / constants / attribute chains evaluated before that read, is replaced by `e`
+    (undoes "extract variable"; locals of the reference tree are never inlined, so the pinned tree is its own normal form).
 
 Functions that use locals()/vars()/eval/exec are left alone.  Line numbers of the original nodes are kept, so reports
 still point into /repo's files; the evidence lists how many names were mapped."""
@@ -30,6 +34,7 @@ from pathlib import Path
 from typing import Dict, Iterator, List, Optional, Set, Tuple
 
 REF_FILE = Path(__file__).resolve().parent / "refnames.json"
+INLINE_TEMPS = True
 
 _FUNC = (ast.FunctionDef, ast.AsyncFunctionDef)
 
@@ -337,6 +342,182 @@ def _is_log_stmt(st: ast.stmt) -> bool:
     return False
 
 
+def _plain_annotated_assignments(fn) -> int:
+    """Inside a function `x: T = e` is `x = e` (annotations of locals are not evaluated into behaviour)."""
+    k = 0
+    for n in _own_nodes(fn):
+        for field in ("body", "orelse", "finalbody"):
+            blk = getattr(n, field, None)
+            if isinstance(blk, list):
+                for i, st in enumerate(blk):
+                    if isinstance(st, ast.AnnAssign) and st.value is not None and isinstance(st.target, ast.Name):
+                        blk[i] = ast.copy_location(ast.Assign(targets=[st.target], value=st.value), st)
+                        k += 1
+        if isinstance(n, ast.Try):
+            for h in n.handlers:
+                for i, st in enumerate(h.body):
+                    if isinstance(st, ast.AnnAssign) and st.value is not None and isinstance(st.target, ast.Name):
+                        h.body[i] = ast.copy_location(ast.Assign(targets=[st.target], value=st.value), st)
+                        k += 1
+    for i, st in enumerate(fn.body):
+        if isinstance(st, ast.AnnAssign) and st.value is not None and isinstance(st.target, ast.Name):
+            fn.body[i] = ast.copy_location(ast.Assign(targets=[st.target], value=st.value), st)
+            k += 1
+    return k
+
+
+def _simple(e) -> bool:
+    return isinstance(e, (ast.Name, ast.Constant)) or (isinstance(e, ast.Attribute) and _simple(e.value))
+
+
+def _eval_order(st: ast.stmt) -> Optional[List[ast.AST]]:
+    """Expressions a simple statement evaluates, in evaluation order (None: not a statement we inline into)."""
+    if isinstance(st, ast.Expr):
+        return [st.value]
+    if isinstance(st, ast.Return) and st.value is not None:
+        return [st.value]
+    if isinstance(st, ast.Assign):
+        return [st.value] + list(st.targets)
+    if isinstance(st, ast.AugAssign):
+        return [st.target, st.value]
+    return None
+
+
+def _inline_adjacent_temps(fn, keep: Set[str]) -> int:
+    """Only for locals the reference tree does not have (`keep` = the reference names): `t = e` directly followed by a simple statement that reads `t` exactly once, `t` bound and read nowhere else, and nothing but
+    names / constants / attribute chains evaluated before that read: the read is replaced by `e` (same values in the same order)."""
+    k = 0
+    stores: Dict[str, int] = {}
+    loads: Dict[str, int] = {}
+    pinned: Set[str] = set()
+    for n in ast.walk(fn):
+        if isinstance(n, ast.Name):
+            if isinstance(n.ctx, ast.Load):
+                loads[n.id] = loads.get(n.id, 0) + 1
+            else:
+                stores[n.id] = stores.get(n.id, 0) + 1
+    for n in _own_nodes(fn):
+        if isinstance(n, _FUNC + (ast.Lambda, ast.ClassDef)):
+            pinned.update(x.id for x in ast.walk(n) if isinstance(x, ast.Name))
+        if isinstance(n, (ast.Global, ast.Nonlocal)):
+            pinned.update(n.names)
+        if isinstance(n, (ast.ListComp, ast.SetComp, ast.DictComp, ast.GeneratorExp)):
+            pinned.update(x.id for x in ast.walk(n) if isinstance(x, ast.Name))
+    params = {p.lstrip("*") for p in _params(fn)}
+
+    def first_use_ok(st, name) -> Optional[Tuple[ast.AST, str, object]]:
+        order = _eval_order(st)
+        if order is None:
+            return None
+        # walk in evaluation order; stop at the first non-simple node that is not an ancestor of the use
+        found = []
+
+        def visit(e, parent, field, idx) -> bool:
+            """returns False when evaluation of something impure/unknown happens before the use is met"""
+            if isinstance(e, ast.Name):
+                if e.id == name and isinstance(e.ctx, ast.Load):
+                    found.append((parent, field, idx))
+                    return True
+                return True
+            if isinstance(e, ast.Constant):
+                return True
+            if isinstance(e, ast.Attribute):
+                return visit(e.value, e, "value", None) and not found or bool(found)
+            if isinstance(e, ast.Call):
+                if not visit(e.func, e, "func", None):
+                    return False
+                if found:
+                    return True
+                for i, a in enumerate(e.args):
+                    if isinstance(a, ast.Starred):
+                        return False
+                    if not visit(a, e, "args", i):
+                        return False
+                    if found:
+                        return True
+                    if not _simple(a):
+                        return False  # a complex argument evaluated before the use
+                for kw in e.keywords:
+                    if not visit(kw.value, kw, "value", None):
+                        return False
+                    if found:
+                        return True
+                    if not _simple(kw.value):
+                        return False
+                return False  # the call itself completes before any later use
+            if isinstance(e, ast.Subscript):
+                if not visit(e.value, e, "value", None):
+                    return False
+                if found:
+                    return True
+                return visit(e.slice, e, "slice", None) if _simple(e.value) else False
+            if isinstance(e, (ast.Tuple, ast.List)):
+                for i, x in enumerate(e.elts):
+                    if not visit(x, e, "elts", i):
+                        return False
+                    if found:
+                        return True
+                    if not _simple(x):
+                        return False
+                return True
+            if isinstance(e, ast.BinOp):
+                if not visit(e.left, e, "left", None):
+                    return False
+                if found:
+                    return True
+                return visit(e.right, e, "right", None) if _simple(e.left) else False
+            if isinstance(e, ast.UnaryOp):
+                return visit(e.operand, e, "operand", None)
+            if isinstance(e, ast.Compare):
+                if not visit(e.left, e, "left", None):
+                    return False
+                if found:
+                    return True
+                if not _simple(e.left):
+                    return False
+                return visit(e.comparators[0], e, "comparators", 0)
+            return False
+        for i, e in enumerate(order):
+            holder = ("value" if e is getattr(st, "value", None) else None)
+            ok = visit(e, st, holder, None)
+            if found:
+                return found[0]
+            if not ok or not _simple(e):
+                return None
+        return None
+
+    def do(body: List[ast.stmt]):
+        nonlocal k
+        i = 0
+        while i + 1 < len(body):
+            a, b = body[i], body[i + 1]
+            if (isinstance(a, ast.Assign) and len(a.targets) == 1 and isinstance(a.targets[0], ast.Name)):
+                t = a.targets[0].id
+                if t not in keep and stores.get(t) == 1 and loads.get(t) == 1 and t not in pinned and t not in params and not isinstance(a.value, (ast.Lambda, ast.Yield, ast.YieldFrom, ast.Await)):
+                    hit = first_use_ok(b, t)
+                    if hit is not None:
+                        parent, field, idx = hit
+                        if field is not None:
+                            if idx is None:
+                                setattr(parent, field, a.value)
+                            else:
+                                getattr(parent, field)[idx] = a.value
+                            del body[i]
+                            k += 1
+                            continue
+            i += 1
+    for n in list(_own_nodes(fn)):
+        for field in ("body", "orelse", "finalbody"):
+            blk = getattr(n, field, None)
+            if isinstance(blk, list) and blk and isinstance(blk[0], ast.stmt):
+                do(blk)
+        if isinstance(n, ast.Try):
+            for h in n.handlers:
+                do(h.body)
+    do(fn.body)
+    return k
+
+
 def _unflip_ifs(tree: ast.AST) -> int:
     """`if not c: A else: B` -> `if c: B else: A` (only for a plain two-armed if; elif chains keep their order)."""
     k = 0
@@ -373,13 +554,15 @@ class Normalizer:
         self.inlined = 0
         self.log_stmts = 0
         self.unflipped = 0
+        self.annotated = 0
+        self.temps = 0
         self.param_renames: Dict[str, Dict[str, str]] = {}  # function simple name -> {current kw: reference kw}
 
     def module(self, stem: str, tree: ast.Module):
-        self.log_stmts += _strip_logging(tree)
         self.unflipped += _unflip_ifs(tree)
         funcs = functions(tree)
         for qn, fn in funcs:
+            self.annotated += _plain_annotated_assignments(fn)
             self.inlined += _inline_temp_returns(fn)
         for qn, fn in funcs:
             entry = self.ref.get(f"{stem}:{qn}")
@@ -387,6 +570,10 @@ class Normalizer:
                 continue
             self._params(stem, qn, fn, entry)
             self._locals(stem, qn, fn, entry)
+            if INLINE_TEMPS and "locals" in entry:
+                keep = {v for v, _ in entry["locals"]} | {p.lstrip("*") for p in entry["params"]}
+                self.temps += _inline_adjacent_temps(fn, keep)
+        self.log_stmts += _strip_logging(tree)
 
     def _params(self, stem, qn, fn, entry):
         cur, ref = _params(fn), entry["params"]
